@@ -992,3 +992,137 @@ def feature_suite(prog, ex, P, tier):
     s.run(90)
     tr = finish(ex, s)
     ex.projection = projection(tr)
+
+
+def ask_join_scn(prog, ex, P, tier):
+    """ask_join: the handler returns the JoinHandle of a task it spawned; the task finishes with
+    a (symbolic) value, panics or is aborted at an arbitrary moment; or the actor is gone"""
+    how = pick(ex, ["finish", "panic", "abort", "actor-killed"], "task-end")
+    s = Sim(prog, ex)
+    w = s.w
+    s.spawn_actor(Script("A"), 1)
+    val = ex.sym("task_output", 8)
+    s.client("c1", [("ask_join", "A", 5)], ["A"])
+    if how == "actor-killed":
+        s.client("ck", [("kill", "A")], ["A"])
+    s.drop_main("A")
+
+    def pending():
+        return [t for t in getattr(w, "spawned_by_handlers", []) if t.state == "running"]
+
+    def end():
+        w.finish_external_task(pending()[0], "finish" if how == "actor-killed" else how, IntV(val, 8))
+    s.extra_actions.append((lambda: bool(pending()), end, "spawned-task-ends"))
+    s.run(60)
+    tr = finish(ex, s)
+    for o in tr.ops().values():
+        ex.check("C03", o["done"] is not None, "ask_join still pending at quiescence")
+        res = s.clients["c1"].results[0]
+        spawned = getattr(w, "spawned_by_handlers", [])
+        if not spawned:
+            ex.check("C03", res.variant == "Err", "ask_join returned Ok although the handler never ran")
+            continue
+        if how in ("finish", "actor-killed"):
+            ex.check("C03", res.variant == "Ok", "ask_join failed although the spawned task finished: %s" % w.describe(res))
+            if res.variant == "Ok":
+                ex.check("C03", res.fields[0].z() == val, "ask_join returned a value that is not the task's output")
+        else:
+            ex.check("C03", res.variant == "Err" and res.fields[0].variant == "Join", "ask_join did not report the task's failure as Error::Join: %s" % w.describe(res))
+            if res.variant == "Err" and res.fields[0].variant == "Join":
+                je = res.fields[0].fields[1]
+                ex.check("C03", je.fields[1] is (how == "panic"), "the JoinError carried by Error::Join is not the task's own (panic flag %s, task ended by %s)" % (je.fields[1], how))
+                ex.check("C03", w.describe(je.fields[0]) == spawned[0].id, "Error::Join carries the JoinError of another task")
+
+
+# ---- macros (C19) ----------------------------------------------------------------------------
+def macro_runtime(prog, ex, P, tier):
+    """runtime half: after a tell - and never after an ask - on_tell_result is invoked exactly
+    once with the handler's return value"""
+    s = Sim(prog, ex)
+    s.spawn_actor(Script("A", handler_yields={"*": pick(ex, [0, 1], "handler-yields")}), 2)
+    s.client("c1", [("tell", "A", 1), ("ask", "A", 2), ("tell", "A", 3)], ["A"])
+    s.client("c2", [("ask", "A", 4)], ["A"])
+    s.drop_main("A")
+    s.run(80)
+    tr = finish(ex, s)
+    tells = [e["msg"] for _, e in tr.hook("A", "handler", "hook_exit") if e["msg"] in (1, 3)]
+    otr = [e["result"] for e in tr.ev if e["ev"] == "on_tell_result"]
+    ex.check("C19", sorted(otr) == sorted(M.reply_of(m) for m in tells), "on_tell_result calls %s, completed tell handlers returned %s" % (otr, [M.reply_of(m) for m in tells]))
+    # order: each on_tell_result directly follows its handler's completion
+    for i, e in enumerate(tr.ev):
+        if e["ev"] == "on_tell_result":
+            prev = [x for x in tr.ev[:i] if x["ev"] == "hook_exit" and x.get("hook") == "handler"]
+            ex.check("C19", bool(prev) and prev[-1]["out"] == e["result"] and prev[-1]["msg"] in (1, 3), "on_tell_result(%s) does not follow the tell handler that produced it" % e["result"])
+
+
+def macro_corpus(prog, ex, P, tier):
+    """macro half: every program of the generated corpus (expanded by the real macros), symbolic
+    actor state and message payloads, a tell and an ask per handler"""
+    from . import corpus
+    progs = corpus.programs()
+    p = progs[ex.choose(len(progs), "program")]
+    s = Sim(prog, ex)
+    w = s.w
+    acc0 = ex.sym("acc0", 32)
+    n, kind = p["name"], p["kind"]
+    if kind in ("struct",):
+        args = Agg("struct", n, [IntV(acc0, 32)])
+    elif kind == "tuple":
+        args = Agg("struct", n, [IntV(acc0, 32)])
+    elif kind == "enum":
+        args = mk_enum(n, pick(ex, ["On", "Off"], "variant"), IntV(acc0, 32))
+    else:
+        args = Agg("struct", n, [IntV(acc0, 32), IntV(9, 8)])
+    s.spawn_value("A", args, 2)
+    h0, h1 = p["handlers"]
+    ms = [ex.sym("m%d" % i, 8) for i in range(4)]
+    plan = [("tellv", h0, ms[0]), ("askv", h1, ms[1]), ("tellv", h1, ms[2]), ("askv", h0, ms[3])]
+    ops = [(k, "A", Agg("struct", h["msg"], [IntV(m, 8)])) for k, h, m in plan]
+    c1 = s.client("c1", ops, ["A"])
+    s.drop_main("A")
+    s.run(80)
+    ex.steps = s.it.steps
+    ex.sim = s
+    if s.bound_hit:
+        raise Unsupported("bound hit")
+    # --- expectations, stated independently of the macro -------------------------------------
+    acc = acc0
+    exp_logs = 0
+    for (k, h, m), res in zip(plan, c1.results):
+        acc = acc * 31 + (z3.ZeroExt(24, m) + h["k"])
+        odd = (m & 1) == 1
+        if k == "askv":
+            ex.check("C19", isinstance(res, Agg) and res.variant == "Ok", "ask through the generated Message impl failed: %s" % w.describe(res))
+            v = res.fields[0]
+            if h["ret"] == "u32":
+                ex.check("C19", isinstance(v, IntV) and v.bits == 32, "Reply of a `-> u32` handler is not a u32: %r" % (v,))
+                ex.check("C19", v.z() == acc, "handle() does not return what the method computes")
+            elif h["ret"] == "unit":
+                ex.check("C19", is_unit(v), "Reply of a handler without return type is not ()")
+            elif h["ret"] in ("result", "std_result", "alias"):
+                is_err = ex.branch_bool(odd)
+                ex.check("C19", isinstance(v, Agg) and v.name == "Result" and v.variant == ("Err" if is_err else "Ok"), "Reply of a Result handler: %s (payload odd: %s)" % (w.describe(v), is_err))
+                if not is_err:
+                    ex.check("C19", v.fields[0].z() == acc, "handle() does not return what the method computes")
+            else:
+                is_none = ex.branch_bool(odd)
+                ex.check("C19", isinstance(v, Agg) and v.name == "Option" and v.variant == ("None" if is_none else "Some"), "Reply of an Option handler: %s" % w.describe(v))
+        else:
+            ex.check("C19", isinstance(res, Agg) and res.variant == "Ok", "tell failed: %s" % w.describe(res))
+            if corpus.expect_log(h, True):
+                # documented table: this handler logs exactly its Err values after a tell
+                if ex.branch_bool(odd):
+                    exp_logs += 1
+    logs = [e for e in ex.events if e["ev"] == "log" and e["level"] == "error"]
+    ex.check("C19", len(logs) == exp_logs, "%d error events logged by generated on_tell_result code, the decision table says %d (program %s: %s)" % (
+        len(logs), exp_logs, n, [(h["ret"], h["opt"]) for h in p["handlers"]]))
+    t = w.actors["A"]["task"]
+    ex.check("C19", t.state == "finished" and t.result.variant == "Completed", "derive(Actor) actor did not complete: %s" % w.describe(t.result))
+    if t.state == "finished" and t.result.variant == "Completed":
+        act = t.result.fields[0]
+        fin = act.fields[0]
+        ex.check("C19", fin.z() == acc, "final actor state differs from applying the four handler methods in order")
+        if kind == "enum":
+            ex.check("C19", act.variant == args.variant, "derive(Actor) on_start changed the enum variant")
+        if kind == "generic":
+            ex.check("C19", w.describe(act.fields[1]) == 9, "derive(Actor) on_start changed a field")
